@@ -55,4 +55,23 @@ CHECKS = {
         "note": "Trusted: the list-of-boxes model; canonical form = the public arrays and lists (the class has no other state).",
         "technique": "explicit-state model checking of operation histories on the real code vs reference model, crash/hang isolation in a fork sandbox",
     },
+    "C02": {
+        "text": ("All boolean narrow-phase tests (jolt, libccd, MPR, Nesterov with/without acceleration, Nesterov-primitives "
+                 "with/without acceleration) are executed on every scene of the deviation-2 lattice (all 100 ordered type pairs) "
+                 "whose truth is certified by construction: gap >= delta by two parallel supporting planes, or a common point at "
+                 "depth >= delta in both shapes (delta = 1e-3*L). ~4.3e5 judged scenes, ~2.4e6 test executions; scenes in the "
+                 "grazing band are generated but not judged."),
+        "design_ref": "DESIGN.md 5 C02",
+        "note": "Trusted: reference model; known finding KF-C02-mpr-coplanar-flat is matched by exact descriptor only.",
+        "technique": "bounded-exhaustive scene-lattice exploration of the real boolean tests vs constructed ground truth",
+    },
+    "C09": {
+        "text": ("gjk_distance_original (full closest-point certificate at 1e-3*L), gjk_nesterov_accelerated with and without "
+                 "acceleration on all 100 ordered pairs incl. every mixed specialised/generic pair, and the primitives variant on "
+                 "its 25 pairs are executed on deviation-1 (full alphabets) + deviation-2 (reduced alphabets) scenes with "
+                 "constructed truth; *_distance and *_iterations helpers must equal the full call started from the same state."),
+        "design_ref": "DESIGN.md 5 C09",
+        "note": "Trusted: reference model. Mesh vertex caches are reset to the same state before each compared call.",
+        "technique": "bounded-exhaustive scene-lattice exploration of the real alternative GJK flavours vs constructed truth and certificate",
+    },
 }
